@@ -1,7 +1,7 @@
 (* Props/C17.v — Index arithmetic, mode-selection preprocessing (theorems about the code as
    regenerated from /repo/pyttb/pyttb_utils.py at run time).  Only statements, `exact`, Print Assumptions. *)
 From Coq Require Import List ZArith Arith Bool Permutation Sorted.
-From PV Require Import Base.Index Np.NpZ Np.NpZ2 Proofs.NpZProofs Gen.GenUtils Gen.GenKernels Proofs.UtilsProofs Proofs.RowsProofs Gen.GenUtils2 Proofs.KhatriRao Proofs.GenKernelsProofs Proofs.GenKhatriRao Proofs.GenWrapDims Proofs.C03Rows Proofs.GenRows Model.Repr.
+From PV Require Import Base.Index Np.NpZ Np.NpZ2 Proofs.NpZProofs Gen.GenUtils Gen.GenKernels Proofs.UtilsProofs Proofs.RowsProofs Gen.GenUtils2 Proofs.KhatriRao Proofs.GenKernelsProofs Proofs.GenKhatriRao Proofs.GenWrapDims Proofs.C03Rows Proofs.GenRows Proofs.C17Dup Proofs.C17Index Model.Repr.
 Import ListNotations.
 
 (* mutually inverse bijections between subscripts of a shape and 0..size-1 *)
@@ -38,6 +38,24 @@ Theorem C17_tt_ind2sub : forall (s : shape) (ks : list nat),
   tt_ind2sub (zs s) (zs ks) OrdF = Ok (map (fun k => zs (ind2sub s k)) ks).
 Proof. exact tt_ind2sub_spec. Qed.
 Print Assumptions C17_tt_ind2sub.
+
+(* every linear index in [-size, size) is answered — negative ones count from the end (numpy convention) — ... *)
+Theorem C17_tt_ind2sub_all : forall (s : shape) (ks : list Z),
+  (forall k, In k ks -> (- Z.of_nat (size s) <= k < Z.of_nat (size s))%Z) ->
+  tt_ind2sub (zs s) ks OrdF = Ok (map (fun k => zs (ind2sub s (wrap_index (size s) k))) ks).
+Proof. exact tt_ind2sub_all. Qed.
+Print Assumptions C17_tt_ind2sub_all.
+
+(* ... and every other index is rejected *)
+Theorem C17_tt_ind2sub_rejects : forall (s : shape) (ks : list Z),
+  (exists k, In k ks /\ (Z.of_nat (size s) <= k \/ k < - Z.of_nat (size s))%Z) -> tt_ind2sub (zs s) ks OrdF = Err.
+Proof. exact tt_ind2sub_rejects. Qed.
+Print Assumptions C17_tt_ind2sub_rejects.
+
+Example C17_tt_ind2sub_example :
+  tt_ind2sub [2; 3; 4]%Z [-1; 5; -24; 0; 23]%Z OrdF = Ok [[1; 2; 3]; [1; 2; 0]; [0; 0; 0]; [0; 0; 0]; [1; 2; 3]]%Z /\
+  tt_ind2sub [2; 3; 4]%Z [3; 24]%Z OrdF = Err /\ tt_ind2sub [2; 3; 4]%Z [-25]%Z OrdF = Err.
+Proof. repeat split; reflexivity. Qed.
 
 Theorem C17_tt_roundtrip_sub : forall (s : shape) (subs : list idx),
   s <> [] -> (forall i, In i subs -> inb s i = true) ->
@@ -212,6 +230,15 @@ Example C17_khatrirao_gen_example :
   = Ok [[5; 12]; [7; 16]; [9; 20]; [15; 24]; [21; 32]; [27; 40]].
 Proof. reflexivity. Qed.
 
+(* three matrices (2 x 2, 3 x 2, 2 x 2): row (i0, i1, i2) of the product sits at i2 + 2 * (i1 + 3 * i0) *)
+Example C17_khatrirao_gen_example3 :
+  GenKernels.khatrirao [[[1; 2]; [3; 4]]; [[5; 6]; [7; 8]; [9; 10]]; [[1; -1]; [2; 3]]] false
+  = Ok [[5; -12]; [10; 36]; [7; -16]; [14; 48]; [9; -20]; [18; 60];
+        [15; -24]; [30; 72]; [21; -32]; [42; 96]; [27; -40]; [54; 120]] /\
+  GenKernels.khatrirao [[[1; -1]; [2; 3]]; [[5; 6]; [7; 8]; [9; 10]]; [[1; 2]; [3; 4]]] true
+  = GenKernels.khatrirao [[[1; 2]; [3; 4]]; [[5; 6]; [7; 8]; [9; 10]]; [[1; -1]; [2; 3]]] false.
+Proof. split; reflexivity. Qed.
+
 (* ---- pyttb_utils.py::gather_wrap_dims as regenerated into Gen/GenUtils2.v: every admissible request
    (rows and/or columns given as duplicate-free in-range mode lists; both given = an ordered partition) yields
    (rdims, cdims) whose concatenation is a permutation of 0..ndims-1, in the documented convention ---- *)
@@ -255,9 +282,9 @@ Theorem C17_setdiff_rows : forall A B : mat, NoDup A -> NoDup B -> okw A -> okw 
 Proof. exact setdiff_rows_positions. Qed.
 Print Assumptions C17_setdiff_rows.
 
-(* tt_union_rows A B (Gen/GenUtils2.v) = rows of B not in A, in B's order, followed by the rows of A — for B in
-   lexicographic row order (what np.where(...).transpose() delivers to the only in-repo caller); for an unsorted B the
-   code picks wrong rows: known finding C17-UNION, replayed on pyttb by tools/props/c17.py *)
+(* tt_union_rows A B (Gen/GenUtils2.v) = rows of B not in A, in B's order, followed by the rows of A — first for B in
+   lexicographic row order (what np.where(...).transpose() delivers to the only in-repo caller; proved in wave 2 while
+   finding C17-UNION was open); the statements for ALL arguments follow below (C17_union_rows ...) *)
 Theorem C17_union_rows_sortedB : forall A B : mat,
   NoDup A -> okw A -> okw B -> Sorted row_lt B ->
   (forall r q, In r A -> In q B -> length r = length q) ->
@@ -275,6 +302,103 @@ Print Assumptions C17_union_rows_members.
 Example C17_union_rows_example :
   tt_union_rows [[1; 2]; [3; 4]] [[0; 0]; [1; 2]; [3; 4]; [5; 5]] = Ok [[0; 0]; [5; 5]; [1; 2]; [3; 4]].
 Proof. reflexivity. Qed.
+
+(* ---- row-set algebra for ALL arguments: repeated rows in either argument, any stored order (Proofs/C17Dup.v).
+   dedup m = the distinct rows of m in first-occurrence order; firstpos m = the ascending positions of the first
+   occurrences; loc A r = position of (the last occurrence of) r in A; inrows A r = membership ---- *)
+
+(* what the specification functions mean *)
+Theorem C17_dedup_reading : forall m : mat,
+  NoDup (dedup m) /\ (forall r, In r (dedup m) <-> In r m) /\ (NoDup m -> dedup m = m) /\
+  np_take [] m (firstpos m) = dedup m /\ StronglySorted Z.lt (firstpos m) /\
+  (forall r, inrows m r = true <-> In r m) /\
+  (forall r, In r m -> exists j, loc m r = Z.of_nat j /\ (j < length m)%nat /\ nth j m [] = r).
+Proof. exact dedup_reading. Qed.
+Print Assumptions C17_dedup_reading.
+
+(* union: the distinct rows of B that do not occur in A (order of first occurrence in B), then the distinct rows of A *)
+Theorem C17_union_rows : forall A B : mat,
+  okw A -> okw B -> (forall r q, In r A -> In q B -> length r = length q) ->
+  tt_union_rows A B = Ok (filter (fun r => negb (inrows A r)) (dedup B) ++ dedup A).
+Proof. exact tt_union_rows_gen. Qed.
+Print Assumptions C17_union_rows.
+
+(* ... which is set union: a row is in the result iff it is in A or in B, and no row occurs twice *)
+Theorem C17_union_rows_set : forall A B : mat,
+  okw A -> okw B -> (forall r q, In r A -> In q B -> length r = length q) ->
+  exists U, tt_union_rows A B = Ok U /\ (forall r, In r U <-> In r A \/ In r B) /\ NoDup U.
+Proof. exact tt_union_rows_set. Qed.
+Print Assumptions C17_union_rows_set.
+
+(* duplicate-free arguments in ANY stored order (B unsorted: the case of the repaired finding C17-UNION) *)
+Theorem C17_union_rows_anyorder : forall A B : mat,
+  NoDup A -> NoDup B -> okw A -> okw B -> (forall r q, In r A -> In q B -> length r = length q) ->
+  tt_union_rows A B = Ok (filter (fun r => negb (inrows A r)) B ++ A).
+Proof. exact tt_union_rows_nodup. Qed.
+Print Assumptions C17_union_rows_anyorder.
+
+Example C17_union_rows_unsorted_example :
+  tt_union_rows [[1; 2]] [[5; 5]; [0; 0]; [1; 2]] = Ok [[5; 5]; [0; 0]; [1; 2]] /\
+  tt_union_rows [[1; 2]; [3; 4]; [1; 2]] [[5; 5]; [0; 0]; [1; 2]; [5; 5]] = Ok [[5; 5]; [0; 0]; [1; 2]; [3; 4]].
+Proof. split; reflexivity. Qed.
+
+(* exactly what tt_intersect_rows / tt_setdiff_rows return for arbitrary arguments: positions in dedup A *)
+Theorem C17_intersect_rows_general : forall A B : mat, okw A -> okw B ->
+  tt_intersect_rows A B = Ok (map (loc (dedup A)) (filter (inrows A) (dedup B))).
+Proof. exact tt_intersect_rows_gen. Qed.
+Print Assumptions C17_intersect_rows_general.
+
+Theorem C17_setdiff_rows_general : forall A B : mat, okw A -> okw B ->
+  tt_setdiff_rows A B =
+  Ok (filter (fun x => negb (zmem x (map (loc (dedup A)) (filter (inrows A) (dedup B))))) (firstpos A)).
+Proof. exact tt_setdiff_rows_gen. Qed.
+Print Assumptions C17_setdiff_rows_general.
+
+(* index contracts with a duplicate-free FIRST argument and an ARBITRARY second one (repeated rows, any order) *)
+Theorem C17_intersect_rows_dupB : forall A B : mat, NoDup A -> okw A -> okw B ->
+  exists idx, tt_intersect_rows A B = Ok idx /\ idx = map (loc A) (filter (inrows A) (dedup B)) /\
+              np_take [] A idx = filter (inrows A) (dedup B) /\ (forall x, In x idx -> 0 <= x < zlen A).
+Proof. exact tt_intersect_rows_dupB. Qed.
+Print Assumptions C17_intersect_rows_dupB.
+
+Theorem C17_setdiff_rows_dupB : forall A B : mat, NoDup A -> okw A -> okw B ->
+  tt_setdiff_rows A B =
+  Ok (map Z.of_nat (filter (fun k => negb (existsb (row_eqb (nth k A [])) B)) (seq 0 (length A)))).
+Proof. exact tt_setdiff_rows_dupB. Qed.
+Print Assumptions C17_setdiff_rows_dupB.
+
+Example C17_rows_dupB_example :
+  tt_intersect_rows [[3; 0]; [1; 1]; [0; 2]] [[0; 2]; [7; 7]; [3; 0]; [0; 2]] = Ok [2; 0] /\
+  tt_setdiff_rows [[3; 0]; [1; 1]; [0; 2]; [4; 4]] [[0; 2]; [7; 7]; [0; 2]] = Ok [0; 1; 3].
+Proof. split; reflexivity. Qed.
+
+(* the full-strength contracts "A[result] = the set-algebra answer" for all arguments
+   (C17Dup.intersect_rows_contract_stmt / setdiff_rows_contract_stmt) are REFUTED when the first argument has
+   repeated rows (open finding A-41: the numbers returned are positions in dedup A) ... *)
+Theorem C17_intersect_rows_dupA_refuted : ~ (forall A B : mat, okw A -> okw B ->
+  exists idx, tt_intersect_rows A B = Ok idx /\ np_take [] A idx = filter (inrows A) (dedup B)).
+Proof. exact intersect_rows_contract_refuted. Qed.
+Print Assumptions C17_intersect_rows_dupA_refuted.
+
+Theorem C17_setdiff_rows_dupA_refuted : ~ (forall A B : mat, okw A -> okw B ->
+  exists idx, tt_setdiff_rows A B = Ok idx /\ np_take [] A idx = filter (fun r => negb (inrows B r)) (dedup A)).
+Proof. exact setdiff_rows_contract_refuted. Qed.
+Print Assumptions C17_setdiff_rows_dupA_refuted.
+
+Example C17_rows_dupA_example :
+  tt_intersect_rows [[1]; [1]; [2]] [[2]] = Ok [1] /\ tt_setdiff_rows [[1]; [1]; [2]] [[2]] = Ok [0; 2].
+Proof. split; reflexivity. Qed.
+
+(* ... and proved for every duplicate-free first argument *)
+Theorem C17_intersect_rows_contract_nodupA : forall A B : mat, NoDup A -> okw A -> okw B ->
+  exists idx, tt_intersect_rows A B = Ok idx /\ np_take [] A idx = filter (inrows A) (dedup B).
+Proof. exact intersect_rows_contract_nodupA. Qed.
+Print Assumptions C17_intersect_rows_contract_nodupA.
+
+Theorem C17_setdiff_rows_contract_nodupA : forall A B : mat, NoDup A -> okw A -> okw B ->
+  exists idx, tt_setdiff_rows A B = Ok idx /\ np_take [] A idx = filter (fun r => negb (inrows B r)) (dedup A).
+Proof. exact setdiff_rows_contract_nodupA. Qed.
+Print Assumptions C17_setdiff_rows_contract_nodupA.
 
 (* non-vacuity: a concrete request meets the hypotheses *)
 Example C17_dimscheck_example :
